@@ -20,7 +20,10 @@ def run(seed_dir):
         subprocess.run(['git', 'init', '-q', '.'], cwd=d, check=True)
         p = subprocess.run(['git', 'apply', os.path.join(seed_dir, 'patch.diff')], cwd=d, capture_output=True, text=True)
         if p.returncode != 0:
-            return sid, prop, 'patch-does-not-apply', p.stderr[-200:]
+            # the tree has moved on since the seed was written (a later fix: commit in /repo): retry with fuzz
+            p = subprocess.run(['patch', '-p1', '-F3', '-s', '-i', os.path.join(seed_dir, 'patch.diff')], cwd=d, capture_output=True, text=True)
+        if p.returncode != 0:
+            return sid, prop, 'patch-does-not-apply', (p.stdout + p.stderr)[-200:]
         env = dict(os.environ, VERIF_REPO=d, VERIF_BUILD=os.path.join(d, 'build'), VERIF_EVIDENCE_DIR=os.path.join(d, 'evidence'))
         r = subprocess.run([os.path.join(V, 'check'), prop, '--tier', 'quick', '--no-canaries'], env=env, capture_output=True, text=True, timeout=3600)
         failed = [l.strip()[len('failed obligation: '):][:90] for l in r.stdout.split('\n') if 'failed obligation' in l]
